@@ -16,7 +16,10 @@ struct iauth_xquery_client in_cli;
 struct { unsigned int used; unsigned char present[NSRV]; } in_tbl;
 struct { unsigned int refs; int type; int configured; char name[3]; } in_srv0, in_srv1, in_srv2;
 struct { char s[4]; } in_service;        /* service name on the reply line */
-struct { char s[40]; } in_reply;         /* reply text */
+#ifndef REPLY_MAX
+#define REPLY_MAX 40
+#endif
+struct { char s[REPLY_MAX]; } in_reply;         /* reply text */
 int in_unlinked;                         /* 'x' notice instead of a reply */
 int in_tag_valid;                        /* the routing tag names this client's current instance */
 int in_expired;                          /* the request timeout has fired earlier */
@@ -195,7 +198,7 @@ void h_xq_x_reply(void)
     char account0;
     xq_pre();
     V_IN(in_service); V_IN(in_reply); V_IN(in_unlinked); V_IN(in_tag_valid);
-    in_service.s[3] = '\0'; in_reply.s[39] = '\0';
+    in_service.s[3] = '\0'; in_reply.s[REPLY_MAX - 1] = '\0';
     rp = in_unlinked ? NULL : in_reply.s;
     /* C04: "comes from a service that currently owes that instance an answer" */
     for (i = 0; i < NSRV; i++)
@@ -374,18 +377,18 @@ void h_xq_check(void)
  * there before (== what a fresh start builds). */
 struct { unsigned n; unsigned char type[2]; } in_section;          /* children "sA","sB"; type 0..3 or 4 = unknown word */
 struct { unsigned used; unsigned char who[2]; unsigned char cfg[2]; unsigned refs[2]; unsigned char otype[2]; } in_oldtbl;   /* who: 0 hole, 1 "sA", 2 "sB", 3 "sC" */
-static const char *tnames[5] = { "login", "login-ipr", "dronecheck", "combined", "bogus" };
-static const char *snames[4] = { "", "sA", "sB", "sC" };
+static const char *tnames(unsigned k) { switch (k) { case 0: return "login"; case 1: return "login-ipr"; case 2: return "dronecheck"; case 3: return "combined"; default: return "bogus"; } }
+static const char *snames(unsigned k) { switch (k) { case 1: return "sA"; case 2: return "sB"; case 3: return "sC"; default: return ""; } }
 
-static struct conf_node_string *mk_child(const char *name, const char *value)
+/* section children are file-scope objects: their fields (name, value) stay concrete for the
+ * symbolic executor - a heap node's name would make strlen(name) and hence the size of the
+ * service allocation symbolic, which the bit-blaster cannot handle */
+static struct { struct set_node n; struct conf_node_string v; } child_obj[2];
+static struct conf_node_string *mk_child(unsigned k, const char *name, const char *value)
 {
-    struct set_node *n = malloc(sizeof(struct set_node) + sizeof(struct conf_node_string));
-    struct conf_node_string *c;
-    V_ASSUME(n != NULL);
-    c = set_node_data(n);
-    memset(c, 0, sizeof(*c));
+    struct conf_node_string *c = &child_obj[k].v;
+    memset(&child_obj[k], 0, sizeof(child_obj[k]));
     c->base.name = (char *)name; c->base.type = CONF_STRING; c->value = (char *)value;
-    n->l = n->r = n->prev = n->next = NULL;
     return c;
 }
 
@@ -397,12 +400,12 @@ static void services_case(void)
     unsigned i, k;
     memset(&root, 0, sizeof(root));
     root.base.name = "iauth_xquery"; root.base.type = CONF_OBJECT;
-    if (in_section.n >= 1) { c0 = mk_child("sA", tnames[in_section.type[0]]); root.contents.root = set_node(c0); root.contents.count = 1; }
-    if (in_section.n >= 2) { c1 = mk_child("sB", tnames[in_section.type[1]]); set_node(c0)->next = set_node(c1); set_node(c1)->prev = set_node(c0); root.contents.count = 2; }
+    if (in_section.n >= 1) { c0 = mk_child(0, "sA", tnames(in_section.type[0])); root.contents.root = set_node(c0); root.contents.count = 1; }
+    if (in_section.n >= 2) { c1 = mk_child(1, "sB", tnames(in_section.type[1])); set_node(c0)->next = set_node(c1); set_node(c1)->prev = set_node(c0); root.contents.count = 2; }
     xq_conf.root = &root;
     for (i = 0; i < 2; i++)
         if (i < in_oldtbl.used && in_oldtbl.who[i] != 0)
-            old[i] = mk_srv(in_oldtbl.refs[i], in_oldtbl.otype[i], in_oldtbl.cfg[i] != 0, snames[in_oldtbl.who[i]]);
+            old[i] = mk_srv(in_oldtbl.refs[i], in_oldtbl.otype[i], in_oldtbl.cfg[i] != 0, snames(in_oldtbl.who[i]));
     iauth_xquery_services.vec = malloc(4 * sizeof(void *)); V_ASSUME(iauth_xquery_services.vec != NULL);
     iauth_xquery_services.size = 4; iauth_xquery_services.used = in_oldtbl.used;
     for (i = 0; i < 2; i++) iauth_xquery_services.vec[i] = old[i];
@@ -433,8 +436,6 @@ static void services_case(void)
     /* release this case's objects */
     for (i = 0; i < 4; i++) if (i < iauth_xquery_services.used && iauth_xquery_services.vec[i]) free(iauth_xquery_services.vec[i]);
     free(iauth_xquery_services.vec);
-    if (c0) free(set_node(c0));
-    if (c1) free(set_node(c1));
 }
 
 /* exhaustive over: section of 0-2 services (each one of the four protocols or an unknown word) x
@@ -443,16 +444,122 @@ static void services_case(void)
 void h_xq_services_changed(void)
 {
     unsigned n, t0, t1, u, w0, w1, s0, s1;
-    static const unsigned char st_cfg[3] = { 1, 1, 0 }, st_refs[3] = { 0, 1, 1 };
+#define ST_CFG(k) ((k) == 2 ? 0 : 1)
+#define ST_REFS(k) ((k) == 0 ? 0 : 1)
+#ifdef SVC_QUICK
+    {   /* quick tier: hand-picked (section, previous table) pairs - fresh start, additions, removal,
+         * in-place protocol change, reuse of a freed slot, still-awaited leftovers, unknown protocol word */
+#define SVC_CASE(N, T0, T1, U, W0, C0, R0, W1, C1, R1, O0) do { \
+            in_section.n = N; in_section.type[0] = T0; in_section.type[1] = T1; \
+            in_oldtbl.used = U; in_oldtbl.who[0] = W0; in_oldtbl.cfg[0] = C0; in_oldtbl.refs[0] = R0; \
+            in_oldtbl.who[1] = W1; in_oldtbl.cfg[1] = C1; in_oldtbl.refs[1] = R1; in_oldtbl.otype[0] = O0; in_oldtbl.otype[1] = 2; \
+            services_case(); } while (0)
+        /* literals, not a table: the symbolic executor does not fold reads from static arrays */
+#if SVC_QUICK == 0
+        SVC_CASE(1,0,0, 0,0,0,0,0,0,0, 0);      /* fresh start, one login service */
+#ifndef SVC_ONE
+        SVC_CASE(2,0,2, 0,0,0,0,0,0,0, 0);      /* fresh start, login + dronecheck */
+        SVC_CASE(2,0,2, 2,0,0,0,2,1,0, 0);      /* sA must reuse the freed slot 0 next to a configured sB */
+        SVC_CASE(0,0,0, 1,1,1,0,0,0,0, 0);      /* the only service is removed */
+#endif
+#else
+        SVC_CASE(1,4,0, 1,3,0,1,0,0,0, 0);      /* unknown protocol word; an awaited leftover sC */
+        SVC_CASE(1,2,0, 1,1,1,0,0,0,0, 0);      /* protocol changed in place: login -> dronecheck */
+        SVC_CASE(1,0,0, 1,2,0,1,0,0,0, 2);      /* sB still awaited but unconfigured; the new section names sA only */
+        SVC_CASE(2,3,1, 2,0,0,0,0,0,0, 0);      /* two holes, two new services */
+#endif
+    }
+    V_CANARY();
+    return;
+#endif
+    /* split over jobs by the section: -DSEC_N=n -DSEC_T0=t0 -DSEC_T1=t1 (one section per job) */
+#ifdef SEC_N
+    for (n = SEC_N; n <= SEC_N; n++) for (t0 = SEC_T0; t0 <= SEC_T0; t0++) for (t1 = SEC_T1; t1 <= SEC_T1; t1++)
+#else
     for (n = 0; n <= 2; n++) for (t0 = 0; t0 < (n >= 1 ? 5u : 1u); t0++) for (t1 = 0; t1 < (n >= 2 ? 5u : 1u); t1++)
+#endif
     for (u = 0; u <= 2; u++) for (w0 = 0; w0 < (u >= 1 ? 4u : 1u); w0++) for (s0 = 0; s0 < (w0 ? 3u : 1u); s0++)
     for (w1 = 0; w1 < (u >= 2 ? 4u : 1u); w1++) for (s1 = 0; s1 < (w1 ? 3u : 1u); s1++) {
         if (w0 && w0 == w1) continue;
+#ifdef TBL_SLICE
+        /* quick slice of the previous tables: a slot is a hole, sA configured & idle, sB configured & awaited, or sC removed & awaited */
+        if ((w0 == 1 && s0 != 0) || (w0 == 2 && s0 != 1) || (w0 == 3 && s0 != 2)) continue;
+        if ((w1 == 1 && s1 != 0) || (w1 == 2 && s1 != 1) || (w1 == 3 && s1 != 2)) continue;
+#endif
         in_section.n = n; in_section.type[0] = (unsigned char)t0; in_section.type[1] = (unsigned char)t1;
         in_oldtbl.used = u; in_oldtbl.who[0] = (unsigned char)w0; in_oldtbl.who[1] = (unsigned char)w1;
-        in_oldtbl.cfg[0] = st_cfg[s0]; in_oldtbl.refs[0] = st_refs[s0]; in_oldtbl.cfg[1] = st_cfg[s1]; in_oldtbl.refs[1] = st_refs[s1];
+        in_oldtbl.cfg[0] = ST_CFG(s0); in_oldtbl.refs[0] = ST_REFS(s0); in_oldtbl.cfg[1] = ST_CFG(s1); in_oldtbl.refs[1] = ST_REFS(s1);
         in_oldtbl.otype[0] = 0; in_oldtbl.otype[1] = 2;
         services_case();
+    }
+    V_CANARY();
+}
+
+/* ======================================================= password shape (C06, C02)
+ * real iauth_xquery_password -> iauth_xquery_check_password; the query builder by contract
+ * (counted; it is proved on its own in C06.xq_check). */
+#ifndef PW_LEN
+#define PW_LEN 10
+#endif
+struct { char s[PW_LEN + 1]; } in_pwtext;
+static unsigned check_calls; static int check_flag;
+void model_xquery_check(struct iauth_request *r, enum iauth_flags flag)
+{
+    V_ASSERT(r == G.req && G.live, "C01: the query builder is run for a live request only");
+    check_calls++; check_flag = (int)flag;
+}
+
+/* C06: the '<modes> <account> <password>' shape (lenient reading: a run starting with + or -,
+ * blank(s), an account, a blank, the rest) */
+static int spec_pw_shape(const char *p, unsigned *rest_at, int *set_x, int *clr_x, int *set_b, int *clr_b)
+{
+    unsigned i = 0; int set = 0;
+    *set_x = *clr_x = *set_b = *clr_b = 0;
+    if (p[0] != '+' && p[0] != '-') return 0;
+    for (; i < PW_LEN + 1; i++) {
+        char c = p[i];
+        if (c == ' ') break;
+        if (c == '\0') return 0;
+        if (c == '+') set = 1;
+        else if (c == '-') set = 0;
+        else if (c == 'x') { *set_x = set; *clr_x = !set; }
+        else if (c == '!') { *set_b = set; *clr_b = !set; }
+    }
+    for (; i < PW_LEN + 1 && p[i] == ' '; i++) ;
+    *rest_at = i;
+    for (; i < PW_LEN + 1 && p[i] != '\0'; i++) if (p[i] == ' ') return 1;
+    return 0;
+}
+
+void h_xq_password(void)
+{
+    unsigned rest = 0, i; int sx, cx, sb, cb, shaped, first;
+    xq_pre();
+    V_IN(in_pwtext);
+    in_pwtext.s[PW_LEN] = '\0';
+    snapshot();
+    first = (cli->more_mask == 0) || (cli->password[0] == '\0');
+    shaped = spec_pw_shape(in_pwtext.s, &rest, &sx, &cx, &sb, &cb);
+    iauth_xquery_password(req, in_pwtext.s);                        /* REAL */
+    V_ASSERT(G.live && G.verdicts == 0 && G.msgs == 0 && G.gate_evals == 0, "C01/C03: a password hook never decides or retires the client itself");
+    if (first) {
+        if (!shaped) {
+            V_ASSERT(check_calls == 0 && G.queries == 0, "C06: a password lacking the '<modes> <account> <password>' shape is never forwarded to any service");
+            V_ASSERT(req_same() && cli_same(), "C06: ... and changes nothing");
+        } else {
+            int hidden0 = (cli0.modes.bits[0] >> IAUTH_XQUERY_HIDDEN_ONLY) & 1, host0 = (cli0.modes.bits[0] >> IAUTH_XQUERY_HIDDEN_HOST) & 1;
+            int hidden1 = sb ? 1 : cb ? 0 : hidden0, host1 = sx ? 1 : cx ? 0 : host0;
+            V_ASSERT(HIDDEN_ONLY(cli) == hidden1 && HIDDEN_HOST(cli) == host1, "C05/C02: the requested modes are the net effect of the mode run");
+            V_ASSERT(check_calls == 1 && check_flag == IAUTH_GOT_PASSWORD, "C06: a well-formed password is handed to the query builder at once");
+            for (i = 0; i < PW_LEN + 1; i++) {
+                if (rest + i <= PW_LEN) {
+                    V_ASSERT(cli->password[i] == in_pwtext.s[rest + i], "C06: the credentials are kept exactly as the server reported them");
+                    if (in_pwtext.s[rest + i] == '\0') break;
+                }
+            }
+            V_ASSERT(req->holds == ((HIDDEN_ONLY(cli) && req->account[0] == '\0') ? 1 : 0), "C02: +! takes a hard hold until an account is stamped, -! releases it (INV)");
+            V_ASSERT(req->soft_holds == req0.soft_holds, "C02: a password takes no soft hold by itself (the query builder does)");
+        }
     }
     V_CANARY();
 }
